@@ -15,7 +15,7 @@ try:
     open(p, "w").write(s)
     env = dict(os.environ, QSA_REPO=d, QSA_EVIDENCE_DIR=os.path.join(d, "ev"))
     r = subprocess.run([sys.executable, "/verif/check"] + pid.split(), env=env, capture_output=True, text=True)
-    print(r.stdout[-3000:], r.stderr[-2000:])
+    print(r.stdout[-60000:], r.stderr[-2000:])
     print("exit", r.returncode)
 finally:
     shutil.rmtree(d)
